@@ -5,10 +5,12 @@ package props
 import (
 	"bytes"
 	"fmt"
+	"io"
 	"os"
 	"path/filepath"
 	"strconv"
 	"strings"
+	"testing/iotest"
 	"time"
 
 	"github.com/foxboron/go-uefi/efi/signature"
@@ -55,6 +57,8 @@ func c07Bound(tier string) (maxLists, maxEntries int) {
 
 func c07CheckStream(c *hx.Ctx, s []byte, want []refesl.List, label string) {
 	aliasing := false
+	outAlias := false
+	readerDep := ""
 	var db signature.SignatureDatabase
 	var err error
 	var enc []byte
@@ -62,6 +66,31 @@ func c07CheckStream(c *hx.Ctx, s []byte, want []refesl.List, label string) {
 		db, err = signature.ReadSignatureDatabase(bytes.NewReader(s))
 		if err == nil {
 			enc = db.Bytes()
+		}
+		// an encoding handed out must stay what it is when other values are encoded afterwards
+		if err == nil && len(enc) > 0 {
+			keep := enc
+			want0 := append([]byte{}, enc...)
+			other := signature.NewSignatureDatabase()
+			other.Append(signature.CERT_SHA256_GUID, unwire(ownerB), fill(32, 0x77))
+			_ = other.Bytes()
+			for _, l := range *other {
+				_ = l.Bytes()
+			}
+			var mb bytes.Buffer
+			other.Marshal(&mb)
+			if !bytes.Equal(keep, want0) {
+				outAlias = true
+			}
+		}
+		// readers that deliver data in other portions (one byte at a time, half reads, data together with io.EOF)
+		if err == nil {
+			for _, mk := range []func(io.Reader) io.Reader{iotest.OneByteReader, iotest.HalfReader, iotest.DataErrReader} {
+				dbr, e3 := signature.ReadSignatureDatabase(mk(bytes.NewReader(s)))
+				if e3 != nil || !bytes.Equal(dbr.Bytes(), s) {
+					readerDep = fmt.Sprint(e3)
+				}
+			}
 		}
 		// the decoded value must not depend on the caller's buffer: decode through a
 		// *bytes.Buffer (the path GetVar uses), reuse the buffer, then look at the value
@@ -102,6 +131,16 @@ func c07CheckStream(c *hx.Ctx, s []byte, want []refesl.List, label string) {
 	if !bytes.Equal(enc, s) {
 		c.Outcome("reencode-mismatch")
 		c.Violation("C07 re-encoding differs from the input: "+typesOf(want), map[string]any{"stream": hx8(s), "reencoded": hx8(enc), "shape": label})
+		return
+	}
+	if outAlias {
+		c.Outcome("encoding-aliases-shared-buffer")
+		c.Violation("C07 an encoding returned earlier changes when another value is encoded afterwards", map[string]any{"stream": hx8(s), "shape": label})
+		return
+	}
+	if readerDep != "" {
+		c.Outcome("decode-depends-on-read-portions")
+		c.Violation("C07 decoding a well-formed stream depends on how the reader portions the data (one byte, half reads, data together with io.EOF)", map[string]any{"stream": hx8(s), "shape": label, "error": readerDep})
 		return
 	}
 	if aliasing {
